@@ -360,7 +360,9 @@ class ComputeAggregate(Case):
 
     def call(self, mod, e):
         store = mod.PandasStore.__new__(mod.PandasStore)
-        before = [object(), object()]
+        # results of every module a configuration can name, and one that is not a CollectedResult at all
+        # (the roll-up takes the collected results as they are, whatever produced them)
+        before = [mod.CollectedResult(stream_id="s", package=pkg, test=t, function=len, results=object()) for pkg, t in (("qartod", "gross_range_test"), ("axds", "valid_range_test"), ("argo", "speed_test"), ("qartod", "spike_test"))]
         store.collected_results = list(before)
         seen = {}
 
